@@ -602,8 +602,12 @@ func TestProp(t *testing.T) {
 	t.Run("tlb-random", func(t *testing.T) { core.Run(t, random) })
 	t.Run("tl", func(t *testing.T) { core.Run(t, tlCheck) })
 	t.Run("helpers", func(t *testing.T) { core.Run(t, helpers) })
+	t.Run("answers", func(t *testing.T) { core.Run(t, answers) })
+	t.Run("liteapi", func(t *testing.T) { core.Run(t, liteapiCheck) })
 }
 
-func TestReplay(t *testing.T) { core.Replay(t, mutated, random, tlCheck, helpers, lists, tlRaw, tlbRaw) }
+func TestReplay(t *testing.T) {
+	core.Replay(t, mutated, random, tlCheck, helpers, lists, tlRaw, tlbRaw, answers, answersGrid, liteapiCheck)
+}
 
 var _ = errors.New
